@@ -9,7 +9,7 @@ import vlib, gen_grammar as GG
 from vlib import Infra, Verdict, log
 from props import parser as P
 
-ALPHA = [97, 98, 40, 41, 49, 32, 34, 10, 0xC3, 0xA9, 0xFF, 35]
+ALPHA = [97, 98, 40, 41, 49, 57, 32, 34, 10, 0xC3, 0xA9, 0xFF, 35]
 
 
 def run(pid, tier, args):
@@ -29,7 +29,7 @@ def run(pid, tier, args):
             gs = []
             i = 0
             while len(gs) < (16 if quick else 40):
-                g = GG.make_grammar(rng, "g%d" % i, extra_kinds=[[], ["token"], ["int8"], ["tokens", "token"]][i % 4], ks=(1, -1) if (quick or i % 4) else (0, 1, 2, -1), trailing=(i % 5 == 0))
+                g = GG.make_grammar(rng, "g%d" % i, extra_kinds=[[], ["token"], ["int8", "int8s"], ["tokens", "token"], ["uint8s", "capt"], ["pstring", "textu"]][i % 6], ks=(1, -1) if (quick or i % 4) else (0, 1, 2, -1), trailing=(i % 5 == 0))
                 i += 1
                 gs.append(g)
             # zero-width and optional captures into every field kind (an empty capture must not break setField)
@@ -39,6 +39,12 @@ def run(pid, tier, args):
                 star = {"op": "grp", "mode": "once", "kid": {"op": "grp", "mode": "star", "kid": lit("(")}}
                 body = {"op": "seq", "kids": [{"op": "cap", "f": "T", "fk": kind, "kid": opt}, {"op": "cap", "f": "U", "fk": kind if kind != "int8" else "strings", "kid": star}, lit("b")]}
                 gs.append(P.mk_grammar("z%d" % j, [("P0", body, [P.F("T", kind), P.F("U", kind if kind != "int8" else "strings")])], ks=(1, -1)))
+            # numeric slices (a value out of range is a located conversion error like for scalar fields)
+            for j, (kind, shape) in enumerate([("int8s", "each"), ("int8s", "run"), ("uint8s", "each"), ("int8", "each")]):
+                one = {"op": "cap", "f": "T", "fk": kind, "kid": ref("Int")}
+                body = {"op": "seq", "kids": [{"op": "grp", "mode": "star", "kid": one} if shape == "each" else {"op": "cap", "f": "T", "fk": kind, "kid": {"op": "grp", "mode": "once", "kid": {"op": "grp", "mode": "plus", "kid": ref("Int")}}},
+                                              {"op": "grp", "mode": "opt", "kid": lit("b")}]}
+                gs.append(P.mk_grammar("n%d" % j, [("P0", body, [P.F("T", kind)])], ks=(1, -1)))
             # a capture whose content is only a lookahead group (it matches without consuming anything)
             for j, kind in enumerate(["token", "tokens", "string", "strings", "bool"]):
                 lk = {"op": "grp", "mode": "once", "kid": {"op": "grp", "mode": "opt", "kid": {"op": "look", "neg": False, "kid": lit("(")}}}
@@ -153,6 +159,7 @@ def run(pid, tier, args):
             for name in ("json", "expr", "interp", "ini"):
                 deep.append((name, "nested", 300 if quick else 1000, 64 << 20))
                 deep.append((name, "flat", 20000 if quick else 100000, 8 << 20))
+                deep.append((name, "nestedtrace", 200 if quick else 600, 64 << 20))
             deep.append(("lexflat", "flat", 100000 if quick else 1000000, 4 << 20))
             for name, mode, n, limit in deep:
                 pr = subprocess.run([vhbin, "deep-run", name, mode, str(n), str(limit)], stdout=subprocess.PIPE, stderr=subprocess.PIPE, timeout=600)
@@ -173,7 +180,7 @@ def run(pid, tier, args):
         if k0:
             v.sample({"grammar": P.describe(cases[k0[0]], k0)["grammar"], "input": cases[k0[0]]["inputs"][k0[2]]["q"], "real": real[k0][:200], "meaning": exp[k0][:200]})
         v.notes["cases"] = {"byte_strings_parsed": len(real), "errors": nerr, "successes": nok, "lexing_failures_checked": nlex}
-        v.notes["family"] = "%d F_core grammars x all byte strings <= %d over {a b ( ) 1 space \" newline 0xC3 0xA9 0xFF #} x lookaheads; 4 example grammars x seeded mutations; nested/flat inputs in stack-limited child processes" % (len(gs), maxlen)
+        v.notes["family"] = "%d F_core grammars x all byte strings <= %d over {a b ( ) 1 9 space \" newline 0xC3 0xA9 0xFF #} x lookaheads; 4 example grammars x seeded mutations; nested/flat inputs in stack-limited child processes" % (len(gs), maxlen)
         v.assumptions += ["success/failure is decided by Meaning on the token stream Parser.Lex returns; error identity (which of several candidates is reported) is not judged",
                           "very long / deep inputs are executed on the real code only (no TLC re-evaluation): no panic, no hang, ErrOK, bounded stack",
                           "ErrOK is evaluated by the harness from the public error API"]
